@@ -1,4 +1,306 @@
 package main
 
+import (
+	"go/ast"
+	"go/token"
+	"strings"
+)
+
+// firstPos returns the position of the first call whose function expression string equals name (or has it as suffix), or NoPos.
+func firstCallPos(fd *ast.FuncDecl, name string) token.Pos {
+	var p token.Pos
+	ast.Inspect(fd.Body, func(n ast.Node) bool {
+		if p != token.NoPos {
+			return false
+		}
+		if c, ok := n.(*ast.CallExpr); ok {
+			f := exprStr(c.Fun)
+			if f == name || strings.HasSuffix(f, "."+name) {
+				p = c.Pos()
+			}
+		}
+		return true
+	})
+	return p
+}
+
+func hasCond(fd *ast.FuncDecl, cond string) bool {
+	found := false
+	ast.Inspect(fd.Body, func(n ast.Node) bool {
+		if ifs, ok := n.(*ast.IfStmt); ok && exprStr(ifs.Cond) == cond {
+			found = true
+		}
+		return true
+	})
+	return found
+}
+
+// sigModeStructure recognises, in a load function, the mode-dependent signature handling:
+//
+//	if R.crlConfig.SignatureValidationModeParsed != config.SignatureValidationModeNone {
+//	    … verifyCRLSignature(…) … if <err> != nil { … if R.crlConfig.SignatureValidationModeParsed == config.SignatureValidationModeVerify { return … } } …
+//	}
+//
+// Returns true when present, false when verifyCRLSignature is called unconditionally; anything else is an error.
+func (c *ctx) sigModeStructure(fd *ast.FuncDecl) bool {
+	const none = "R.crlConfig.SignatureValidationModeParsed!=config.SignatureValidationModeNone"
+	const verify = "R.crlConfig.SignatureValidationModeParsed==config.SignatureValidationModeVerify"
+	vpos := firstCallPos(fd, "verifyCRLSignature")
+	if vpos == token.NoPos {
+		fail("%s: %s does not call verifyCRLSignature", c.pos(fd), fd.Name.Name)
+	}
+	var guard *ast.IfStmt
+	ast.Inspect(fd.Body, func(n ast.Node) bool {
+		if ifs, ok := n.(*ast.IfStmt); ok && exprStr(ifs.Cond) == none && ifs.Pos() < vpos && vpos < ifs.End() {
+			guard = ifs
+		}
+		return true
+	})
+	if guard == nil {
+		// unconditional verification: every `if err != nil` after it must return
+		if hasCond(fd, none) || hasCond(fd, verify) {
+			fail("%s: %s: signature mode is consulted in an unrecognised way", c.pos(fd), fd.Name.Name)
+		}
+		return false
+	}
+	if guard.Else != nil {
+		fail("%s: %s: unexpected else on the signature-mode guard", c.pos(guard), fd.Name.Name)
+	}
+	// inside: an error branch that returns only under `== Verify`
+	okShape := false
+	ast.Inspect(guard.Body, func(n ast.Node) bool {
+		ifs, ok := n.(*ast.IfStmt)
+		if !ok || exprStr(ifs.Cond) != verify {
+			return true
+		}
+		if len(ifs.Body.List) == 1 {
+			if _, ok := ifs.Body.List[0].(*ast.ReturnStmt); ok && ifs.Else == nil {
+				okShape = true
+			}
+		}
+		return true
+	})
+	if !okShape {
+		fail("%s: %s: no `if mode == Verify { return err }` inside the signature-mode guard", c.pos(guard), fd.Name.Name)
+	}
+	// no other return of the verification error outside that inner if: every ReturnStmt inside the failure branch must be the one above
+	return true
+}
+
 func genRepo(c *ctx, out string) {
+	const rp = "crl/crlrepository/crlrepository.go"
+	const ck = "crl/crlrevocationchecker.go"
+	l := newLean("Repo")
+	load := c.funcDecl(rp, "Repository", "loadCRL")
+	upd := c.funcDecl(rp, "Repository", "updateCrlEntry")
+
+	// staging: first load parses into a temporary store and swaps after verification
+	tmp := firstCallPos(load, "CreateStore")
+	staged := false
+	ast.Inspect(load.Body, func(n ast.Node) bool {
+		if call, ok := n.(*ast.CallExpr); ok && strings.HasSuffix(exprStr(call.Fun), ".CreateStore") && len(call.Args) == 2 && exprStr(call.Args[1]) == "true" {
+			staged = true
+		}
+		return true
+	})
+	swapL := firstCallPos(load, "Update")
+	readL := firstCallPos(load, "ReadCRL")
+	verL := firstCallPos(load, "verifyCRLSignature")
+	if !staged || tmp == token.NoPos || swapL == token.NoPos || readL == token.NoPos {
+		fail("%s: loadCRL is not staged (temporary store + swap): the repository model does not apply", c.pos(load))
+	}
+	if !(tmp < readL && readL < verL && verL < swapL) {
+		fail("%s: loadCRL: expected order temporary store < ReadCRL < verifyCRLSignature < swap", c.pos(load))
+	}
+	// the processor must write into the temporary store, not the live one
+	procOK := false
+	ast.Inspect(load.Body, func(n ast.Node) bool {
+		if cl, ok := n.(*ast.CompositeLit); ok && exprStr(cl.Type) == "crlstore.CRLPersisterProcessor" && len(cl.Elts) == 1 {
+			if kv, ok := cl.Elts[0].(*ast.KeyValueExpr); ok && exprStr(kv.Value) == "store" {
+				procOK = true
+			}
+		}
+		return true
+	})
+	if !procOK {
+		fail("%s: loadCRL: the persister processor does not write into the temporary store", c.pos(load))
+	}
+	tmpU := firstCallPos(upd, "CreateStore")
+	swapU := firstCallPos(upd, "updateEntry")
+	readU := firstCallPos(upd, "ReadCRL")
+	verU := firstCallPos(upd, "verifyCRLSignature")
+	if !(tmpU != token.NoPos && tmpU < readU && readU < verU && verU < swapU) {
+		fail("%s: updateCrlEntry: expected order temporary store < ReadCRL < verifyCRLSignature < updateEntry", c.pos(upd))
+	}
+	l.p("/-- crlrepository.go:loadCRL / updateCrlEntry — both parse into a temporary store and swap only after the signature step (checked by the translator). -/")
+	l.p("def loadsAreStaged : Bool := true")
+	l.p("/-- crlrepository.go:loadCRL — signature handling depends on signature_validation_mode. -/")
+	l.p("def firstLoadHonoursMode : Bool := %v", c.sigModeStructure(load))
+	l.p("/-- crlrepository.go:updateCrlEntry — signature handling depends on signature_validation_mode. -/")
+	l.p("def refreshHonoursMode : Bool := %v", c.sigModeStructure(upd))
+
+	// AddCRL stores the locations of a freshly added entry
+	add := c.funcDecl(rp, "Repository", "AddCRL")
+	stored := false
+	ast.Inspect(add.Body, func(n ast.Node) bool {
+		if ifs, ok := n.(*ast.IfStmt); ok && exprStr(ifs.Cond) == "crlAdded" {
+			ast.Inspect(ifs.Body, func(m ast.Node) bool {
+				if call, ok := m.(*ast.CallExpr); ok && strings.HasSuffix(exprStr(call.Fun), "storeCRLLocationsIfNotLoaded") {
+					stored = true
+				}
+				return true
+			})
+		}
+		return true
+	})
+	l.p("/-- crlrepository.go:AddCRL — the locations of a newly added, not yet loaded entry are written to its store. -/")
+	l.p("def locationsStoredOnAdd : Bool := %v", stored)
+
+	// strict gate shape
+	isr := c.funcDecl(rp, "Repository", "IsRevoked")
+	gateStrictOnly := false
+	gateLegacy := false
+	ast.Inspect(isr.Body, func(n ast.Node) bool {
+		if ifs, ok := n.(*ast.IfStmt); ok {
+			switch exprStr(ifs.Cond) {
+			case "locations!=nil&&R.crlConfig.CDPConfig.CRLCDPStrict":
+				gateStrictOnly = true
+			case "locations!=nil":
+				gateLegacy = true
+			}
+		}
+		return true
+	})
+	if gateStrictOnly == gateLegacy {
+		fail("%s: IsRevoked: strict gate not recognised", c.pos(isr))
+	}
+	if !hasCond(isr, "R.isEntryPresentAndLoaded(identifier)==false") && !hasCond(isr, "R.crlConfig.CDPConfig.CRLCDPStrict&&R.isEntryPresentAndLoaded(identifier)==false") {
+		fail("%s: IsRevoked: loaded test of the strict gate not recognised", c.pos(isr))
+	}
+	l.p("/-- crlrepository.go:IsRevoked — loader creation / identifier errors can only deny in strict mode. -/")
+	l.p("def gateOnlyWhenStrict : Bool := %v", gateStrictOnly)
+
+	// updateEntry marks the entry loaded after a successful swap
+	ue := c.funcDecl(rp, "Repository", "updateEntry")
+	setsLoaded := false
+	ast.Inspect(ue.Body, func(n ast.Node) bool {
+		if as, ok := n.(*ast.AssignStmt); ok && len(as.Lhs) == 1 && exprStr(as.Lhs[0]) == "entry.Loaded" && exprStr(as.Rhs[0]) == "true" {
+			setsLoaded = true
+		}
+		return true
+	})
+	l.p("/-- crlrepository.go:updateEntry — a successful swap marks the entry loaded. -/")
+	l.p("def updateMarksLoaded : Bool := %v", setsLoaded)
+
+	// Close keeps entries and marks them closed; checkCrl tests the flag
+	ce := c.funcDecl(rp, "Repository", "closeRepositoryEntry")
+	keeps := true
+	marks := false
+	ast.Inspect(ce.Body, func(n ast.Node) bool {
+		if as, ok := n.(*ast.AssignStmt); ok && len(as.Lhs) == 1 {
+			lhs := exprStr(as.Lhs[0])
+			if strings.HasPrefix(lhs, "R.crlRepository[") {
+				keeps = false
+			}
+			if lhs == "entry.Closed" && exprStr(as.Rhs[0]) == "true" {
+				marks = true
+			}
+		}
+		return true
+	})
+	cc := c.funcDecl(rp, "Repository", "checkCrl")
+	l.p("/-- crlrepository.go:closeRepositoryEntry / checkCrl — shutdown keeps the entries, marks them closed, lookups on closed entries fail. -/")
+	l.p("def closeMarksEntries : Bool := %v", keeps && marks && hasCond(cc, "repositoryEntry.Closed"))
+
+	// checkCrl: Loaded test and lookup, revoked short-circuit; IsRevoked walks all identifiers
+	if !hasCond(cc, "repositoryEntry.Loaded") || firstCallPos(cc, "GetCertRevocationStatus") == token.NoPos {
+		fail("%s: checkCrl: loaded test / lookup not recognised", c.pos(cc))
+	}
+	if firstCallPos(isr, "getCurrentIdentifiers") == token.NoPos || firstCallPos(isr, "checkCrl") == token.NoPos {
+		fail("%s: IsRevoked does not walk all repository entries", c.pos(isr))
+	}
+	l.p("def lookupWalksAllEntries : Bool := true")
+
+	// CRL signer candidates: end-entity stripped, key usage checked
+	chk := c.funcDecl(ck, "CRLRevocationChecker", "IsRevoked")
+	strip := false
+	ast.Inspect(chk.Body, func(n ast.Node) bool {
+		if call, ok := n.(*ast.CallExpr); ok && exprStr(call.Fun) == "core.NewCertificateChains" && len(call.Args) == 2 {
+			strip = exprStr(call.Args[0]) == "issuerChains(verifiedChains)"
+		}
+		return true
+	})
+	if strip {
+		ic := c.funcDecl(ck, "", "issuerChains")
+		// body must append verifiedChain[1:] for chains longer than one and nothing else
+		s := ""
+		ast.Inspect(ic.Body, func(n ast.Node) bool {
+			if call, ok := n.(*ast.CallExpr); ok && exprStr(call.Fun) == "append" {
+				s += exprStr(call.Args[1]) + ";"
+			}
+			return true
+		})
+		if s != "verifiedChain[:];" || !hasCond(ic, "len(verifiedChain)>1") {
+			fail("%s: issuerChains: unexpected body (%s)", c.pos(ic), s)
+		}
+	}
+	vs := c.funcDecl(rp, "", "verifyCRLSignature")
+	ku := hasCond(vs, "certCandidate.Certificate.KeyUsage!=0&&certCandidate.Certificate.KeyUsage&x509.KeyUsageCRLSign==0")
+	l.p("/-- crlrevocationchecker.go:IsRevoked — CRL signer candidates are taken from the chains without their end-entity certificates. -/")
+	l.p("def crlCandidatesSkipEndEntity : Bool := %v", strip)
+	l.p("/-- crlrepository.go:verifyCRLSignature — candidates whose key usage lacks cRLSign are skipped. -/")
+	l.p("def crlSignKeyUsageChecked : Bool := %v", ku)
+	// background spawn condition
+	spawn := hasCond(chk, "added&&c.crlConfig.CDPConfig.CRLFetchModeParsed==config.CRLFetchModeBackground")
+	l.p("def backgroundSpawnOnAdd : Bool := %v", spawn)
+	// lock discipline around lookup and swap (C08): the lookup reads `Loaded` and the store under the entry read lock,
+	// every swap (`Update`) runs under the entry write lock
+	lockedBefore := func(fd *ast.FuncDecl, lock, unlock string, target token.Pos) bool {
+		var lockPos, deferPos token.Pos
+		ast.Inspect(fd.Body, func(n ast.Node) bool {
+			switch x := n.(type) {
+			case *ast.ExprStmt:
+				if call, ok := x.X.(*ast.CallExpr); ok && strings.HasSuffix(exprStr(call.Fun), ".entryLock."+lock) && lockPos == token.NoPos {
+					lockPos = x.Pos()
+				}
+			case *ast.DeferStmt:
+				if strings.HasSuffix(exprStr(x.Call.Fun), ".entryLock."+unlock) && deferPos == token.NoPos {
+					deferPos = x.Pos()
+				}
+			}
+			return true
+		})
+		return lockPos != token.NoPos && deferPos != token.NoPos && lockPos < deferPos && deferPos < target
+	}
+	lookupLocked := lockedBefore(cc, "RLock", "RUnlock", firstCallPos(cc, "GetCertRevocationStatus"))
+	// the Loaded / Closed tests must come after the lock as well
+	var loadedTest token.Pos
+	ast.Inspect(cc.Body, func(n ast.Node) bool {
+		if ifs, ok := n.(*ast.IfStmt); ok && (exprStr(ifs.Cond) == "repositoryEntry.Loaded" || exprStr(ifs.Cond) == "repositoryEntry.Closed") && loadedTest == token.NoPos {
+			loadedTest = ifs.Pos()
+		}
+		return true
+	})
+	lookupLocked = lookupLocked && lockedBefore(cc, "RLock", "RUnlock", loadedTest)
+	swapLocked := lockedBefore(ue, "Lock", "Unlock", firstCallPos(ue, "Update"))
+	la := c.funcDecl(rp, "Repository", "loadActively")
+	firstLoadLocked := lockedBefore(la, "Lock", "Unlock", firstCallPos(la, "loadCRL"))
+	uc := c.funcDecl(rp, "Repository", "updateCRL")
+	// updateCRL: Lock … if !Loaded { defer Unlock; return loadCRL } Unlock
+	ucLock := token.NoPos
+	ast.Inspect(uc.Body, func(n ast.Node) bool {
+		if es, ok := n.(*ast.ExprStmt); ok {
+			if call, ok := es.X.(*ast.CallExpr); ok && exprStr(call.Fun) == "entry.entryLock.Lock" && ucLock == token.NoPos {
+				ucLock = es.Pos()
+			}
+		}
+		return true
+	})
+	bgLoadLocked := ucLock != token.NoPos && ucLock < firstCallPos(uc, "loadCRL")
+	l.p("/-- crlrepository.go:checkCrl — Closed/Loaded tests and the store lookup happen under the entry read lock (held until return). -/")
+	l.p("def lookupHoldsReadLock : Bool := %v", lookupLocked)
+	l.p("/-- crlrepository.go:updateEntry, loadActively, updateCRL — every store swap happens under the entry write lock. -/")
+	l.p("def swapHoldsWriteLock : Bool := %v", swapLocked && firstLoadLocked && bgLoadLocked)
+	l.write(out)
+	c.facts["repo"] = map[string]interface{}{"strictOnly": gateStrictOnly, "stored": stored}
 }
